@@ -164,6 +164,17 @@ def _cases_P(tier):
                 yield ("P", shape, ctx, a, d, r)
 
 
+def _cases_P3(tier):
+    """Quick tier only: the parameter lists that have THREE parameters of some kind (the thorough tier has them under every context and variant)."""
+    if tier != "quick":
+        return
+    small = set(param_lists(2))
+    for shape in param_lists(3):
+        if shape not in small:
+            yield ("P", shape, "module", "none", "0", None)
+            yield ("P", shape, "method", "all", "0", "int")
+
+
 def _cases_L(tier):
     for shape in param_lists(_MAXC[tier]):
         for where in ("value", "default"):
@@ -218,6 +229,7 @@ def all_cases(tier):
     yield from _cases_R(tier)
     yield from _cases_L(tier)
     yield from _cases_P(tier)
+    yield from _cases_P3(tier)
 
 
 def shards(tier):
